@@ -31,7 +31,7 @@ func init() {
 func streamRoute(c *ctx) {
 	r := c.r
 	ips := []string{"127.0.0.2", "127.0.0.3", "127.0.0.4", "127.0.0.5"}
-	for n := 0; n < 12*c.scale; n++ {
+	for n := 0; n < 12*c.scale+3; n++ {
 		udps := []*udpResponder{}
 		tcps := []*tcpResponder{}
 		for _, ip := range ips {
@@ -47,6 +47,11 @@ func streamRoute(c *ctx) {
 		if modes := []string{"unconfigured", "no-address", "zero-address", "udp", "tcp", "any"}; n < 2*len(modes) {
 			mode = modes[n/2]
 			bindPort = []int{0, freePort()}[n%2]
+		}
+		// the last three: the bind address names the port only (0.0.0.0:P) - the port still is the configured one
+		bindIP, bindNote := "127.0.0.9", ""
+		if w := n - 12*c.scale; w >= 0 {
+			mode, bindPort, bindIP, bindNote = []string{"tcp", "udp", "unconfigured"}[w], freePort(), "0.0.0.0", "-any-address"
 		}
 		bcast := r.Intn(len(ips)) // the broadcast address is endpoint `bcast` (UDP)
 		devices := []uhppote.Device{}
@@ -75,7 +80,7 @@ func streamRoute(c *ctx) {
 		devices = append(devices, uhppote.Device{DeviceID: serial + 100000, Address: types.ControllerAddrFrom(oap.Addr(), oap.Port()), Protocol: "udp"})
 		bap := netip.MustParseAddrPort(udps[bcast].addr())
 		// the bind ADDRESS is one no responder lives on and not the one the kernel would pick by itself
-		u := uhppote.NewUHPPOTE(types.BindAddrFrom(netip.MustParseAddr("127.0.0.9"), uint16(bindPort)), types.BroadcastAddrFrom(bap.Addr(), bap.Port()),
+		u := uhppote.NewUHPPOTE(types.BindAddrFrom(netip.MustParseAddr(bindIP), uint16(bindPort)), types.BroadcastAddrFrom(bap.Addr(), bap.Port()),
 			types.ListenAddrFrom(netip.MustParseAddr("127.0.0.1"), 60001), T, devices, false)
 		_, err := getCard(u, serial, 424242)
 		time.Sleep(20 * time.Millisecond)
@@ -100,14 +105,14 @@ func streamRoute(c *ctx) {
 				srcOK = "source-port-bound"
 			}
 		}
-		if !strings.HasPrefix(src, "127.0.0.9:") {
+		if bindIP != "0.0.0.0" && !strings.HasPrefix(src, "127.0.0.9:") {
 			srcOK = "source-address-other"
 		}
 		res := "ok"
 		if err != nil {
 			res = "err"
 		}
-		c.w.Emit(fmt.Sprintf("route mode=%s bind=%s want=%s", mode, map[bool]string{true: "0", false: "fixed"}[bindPort == 0], want),
+		c.w.Emit(fmt.Sprintf("route mode=%s bind=%s%s want=%s", mode, map[bool]string{true: "0", false: "fixed"}[bindPort == 0], bindNote, want),
 			fmt.Sprintf("%s heard=[%s] %s", res, strings.Join(heard, ","), srcOK), "route/"+mode)
 	}
 	// two TCP calls in a row from a fixed bind port to the same endpoint: whether the kernel lets the second one connect is
